@@ -182,12 +182,16 @@ Definition read_tx (chk : bool) (nslots maxKeyLen : N) (s : bytes) : res (tx * b
   if list_eq_dec N.eq_dec a alh then Ok ({| t_hdr := h; t_entries := es |}, alh, s)
   else Err ECorruptedTxData.
 
-(* ImmuStore.ReadTx: appendable.NewReaderFrom(txLog, txOff, txSize); txSize is only the size of
-   the read buffer: the reader runs on into whatever follows the record *)
-Definition read_tx_at (chk : bool) (nslots maxKeyLen : N) (txlog : bytes) (off size : N)
+(* ImmuStore.ReadTx(id): appendable.NewReaderFrom(txLog, txOff, txSize) with (txOff, txSize) from
+   the commit-log entry of id; txSize is only the size of the read buffer: the reader runs on into
+   whatever follows the record. Since commit 93c30ce the id decoded from the record is compared
+   with the id that was asked for (checkTxID, with or without integrity check; ReadTxHeader,
+   ReadTxEntry and readTxOffsetAt make the same comparison). *)
+Definition read_tx_at (chk : bool) (nslots maxKeyLen : N) (txlog : bytes) (off size id : N)
   : res tx :=
   do (r, _) <- read_tx chk nslots maxKeyLen (drop off txlog);
-  let '(t, _) := r in Ok t.
+  let '(t, _) := r in
+  if h_id (t_hdr t) =? id then Ok t else Err ECorruptedTxData.
 
 (* ---- performPrecommit: serialisation ---- *)
 Definition write_entry (e : entry) : bytes :=
@@ -233,17 +237,12 @@ Definition vlog_off (off : N) : N := off mod 2 ^ 55.
 Definition off_negative (off : N) : bool := 2 ^ 63 <=? off mod 2 ^ 64.
 
 (* vLog.ReadAt(b, offset) with len(b) = n > 0: short read = io.EOF *)
-(* SWITCH (one line) for fixes/C09-export-eof-beyond-end.diff: once that patch is committed in /repo,
-   set this constant to true. readValueAt then answers a read that starts at or runs past the END of
-   the value log with ErrCorruptedData instead of io.EOF, so ExportTx no longer takes it for a value
-   truncated by retention. (The logs of this model are whole byte strings: no chunk is ever
-   discarded, so every short read is a read past the end.) Theorems that hold after the switch are
-   proved, under the hypothesis  fix_export_eof = true,  in Corrupt/Switch.v. *)
-Definition fix_export_eof : bool := false.
-
+(* vLog.ReadAt(b, offset) with len(b) = n > 0 as readValueAt uses it since commit 6fe0104: a read that
+   starts at or runs past the END of the value log is ErrCorruptedData, not io.EOF (io.EOF is kept
+   for data inside the log whose chunk was discarded; the logs of this model are whole byte strings,
+   no chunk is ever discarded, so every short read is a read past the end) *)
 Definition read_at (log : bytes) (off n : N) : res bytes :=
-  if off + n <=? len log then Ok (take n (drop off log))
-  else Err (if fix_export_eof then ECorruptedData else EEOF).
+  if off + n <=? len log then Ok (take n (drop off log)) else Err ECorruptedData.
 
 (* fetchVLog; in the multi-vlog branch a missing map entry is reported as corrupted data (before
    commit c6a3ff8 it was dereferenced) *)
